@@ -744,6 +744,15 @@ class Sim:
                     return [cont(r[1])]
                 if kind == "inline":
                     return self._inline(fn, env, bb, t, path, depth, r[1], args, cont)
+        # a call through a generic `F: Fn*` parameter whose value is a known closure / fn item
+        if len(args) == 2 and any(n in names for n in ("std::ops::Fn::call", "std::ops::FnMut::call_mut",
+                                                        "std::ops::FnOnce::call_once")) and "resolved" not in t["callee"]:
+            clo = self._deref(args[0], path)
+            tup = self._deref(args[1], path)
+            if isinstance(clo, (Closure, FnItem)) and isinstance(tup, Tup):
+                r = self.call_closure(clo, list(tup.fields), fn, env, bb, t, path, depth, cont)
+                if r is not None:
+                    return r
         # higher-order std adaptors applied to known closures
         ho = self._higher_order(fn, env, bb, t, args, path, depth, cont, ev)
         if ho is not None:
@@ -799,6 +808,70 @@ class Sim:
                 outs.append((env, sp, None))
         return outs
 
+    def _inline_multi(self, fn, env, bb, t, path, depth, callee_fn, args, contm):
+        """Like _inline, but the continuation returns a list of outs and receives a translation function for
+        values captured before the call (forked paths work on a copy of the environment)."""
+        path.events.append(("enter", callee_fn.path, fn.path, bb))
+        amap = {i + 1: a for i, a in enumerate(args)}
+        sub = self._run_fn(callee_fn, amap, path, depth + 1)
+        outs = []
+        first = True
+        for sp in sub:
+            if sp.end == "return":
+                sp.events.append(("leave", callee_fn.path))
+                rv = sp.ret
+                sp.end = None
+                sp.ret = UNK
+                if first:
+                    outs.extend(contm(rv, sp, env, lambda v: v))
+                    first = False
+                else:
+                    memo = {}
+                    e2 = self._copy_env(env, memo)
+                    outs.extend(contm(self._copy_val(rv, memo), sp, e2, lambda v, memo=memo: self._copy_val(v, memo)))
+            else:
+                outs.append((env, sp, None))
+        return outs
+
+    def _find_map(self, fn, env, bb, t, path, depth, cont, it, f, next_fn, k):
+        """Iterator::find_map over a local iterator type: next() and the closure are evaluated in turn until the
+        closure answers Some or the iterator ends (at most 8 items)."""
+        if k > 8 or depth >= self.max_depth:
+            path.end = "stop:iter-limit"
+            return [(env, path, None)]
+        ff = self.find_fn(f.path)
+        if ff is None:
+            return [cont(UNK, path, env)]
+
+        def after_next(rv, sp, e, tr):
+            it2, f2 = tr(it), tr(f)
+            if not isinstance(rv, Adt):
+                return [cont(UNK, sp, e)]
+            if rv.variant == 0:
+                return [cont(Adt("std::option::Option", 0, []), sp, e)]
+            x = rv.fields[0]
+
+            def after_f(r, sp2, e2, tr2):
+                if not isinstance(r, Adt):
+                    return [cont(UNK, sp2, e2)]
+                if r.variant == 1:
+                    return [cont(r, sp2, e2)]
+                return self._find_map(fn, e2, bb, t, sp2, depth, cont, tr2(it2), tr2(f2), next_fn, k + 1)
+
+            cargs = [f2, x] if isinstance(f2, Closure) else [x]
+            return self._inline_multi(fn, e, bb, t, sp, depth, ff, cargs, after_f)
+
+        return self._inline_multi(fn, env, bb, t, path, depth, next_fn, [it], after_next)
+
+    def _local_next(self, self_ty):
+        """The local `Iterator::next` implementation for an iterator type, if any."""
+        base = self_ty.split("<")[0]
+        for c in self.crates:
+            for g in c.fns:
+                if g.impl_trait == "std::iter::Iterator" and g.path.endswith("::next") and (g.self_ty or "").split("<")[0] == base:
+                    return g
+        return None
+
     def call_closure(self, clo, cargs, fn, env, bb, t, path, depth, cont):
         """Invoke a closure / fn item value with argument list cargs; returns outs or None."""
         if isinstance(clo, Closure):
@@ -826,6 +899,11 @@ class Sim:
         x = self._deref(args[0], path)
         f = args[1]
         R, O = "std::result::Result::<T, E>::", "std::option::Option::<T>::"
+        if p == "std::iter::Iterator::find_map" and isinstance(f, (Closure, FnItem)):
+            substs = t["callee"].get("substs") or []
+            nf = self._local_next(substs[0]) if substs else None
+            if nf is not None:
+                return self._find_map(fn, env, bb, t, path, depth, cont, args[0], f, nf, 0)
         if p in (O + "map_or", R + "map_or") and len(args) == 3 and isinstance(x, Adt) \
                 and isinstance(args[2], (Closure, FnItem)):
             some = x.variant == (1 if p.startswith(O) else 0)
@@ -872,6 +950,10 @@ class Sim:
                 return [cont(Adt("std::result::Result", 0, [x.fields[0]]))]
             return self.call_closure(f, [], fn, env, bb, t, path, depth,
                                      wrap_cont(lambda v: Adt("std::result::Result", 1, [v])))
+        if p == O + "or_else":
+            if x.variant == 1:
+                return [cont(x)]
+            return self.call_closure(f, [], fn, env, bb, t, path, depth, cont)
         if p == O + "unwrap_or_else":
             if x.variant == 1:
                 return [cont(x.fields[0])]
@@ -892,6 +974,9 @@ class Sim:
         def has(*ns):
             return any(n in names for n in ns)
 
+        if has("std::iter::IntoIterator::into_iter") and d and (c.get("resolved") or "").startswith("<I as std::iter::IntoIterator>"):
+            # the blanket `impl<I: Iterator> IntoIterator for I`: the iterator itself
+            return ("value", args[0])
         if has("std::ops::Try::branch"):
             a = d[0] if d else UNK
             s0 = substs[0] if substs else ""
